@@ -186,6 +186,8 @@ bool splinetable<Alloc>::read_fits_core(fitsfile* fits, const std::string& fileP
 	
 	//Read in any auxiliary keywords.
 	{
+		//keys written to the still empty table are replaced by the file's
+		release_aux();
 		int nkeys = 0;
 		fits_get_hdrspace(fits, &nkeys, NULL, &error);
 		if (nkeys > 0) {
